@@ -1,4 +1,5 @@
 """Contains the Mode base class."""
+from functools import partial
 from typing import Any, Optional, Union
 from typing import Callable
 from typing import Dict
@@ -256,7 +257,14 @@ class Mode(LogMixin):
         for event_name in self.config['mode']['events_when_started']:
             self.machine.events.post(event_name)
 
-        self.machine.events.post(event='mode_{}_started'.format(self.name), callback=self._mode_started_callback,
+        # the start callback belongs to this start request: hand it over now. the callback of the started event runs only
+        # after everything its handlers caused (e.g. a handler stops the mode and a mode_<name>_stopped handler starts it
+        # again with another callback), so self.start_callback may belong to a later start by then
+        start_callback = self.start_callback
+        self.start_callback = None
+
+        self.machine.events.post(event='mode_{}_started'.format(self.name),
+                                 callback=partial(self._mode_started_callback, _start_callback=start_callback),
                                  **self.start_event_kwargs)
         '''event: mode_(name)_started
 
@@ -267,15 +275,15 @@ class Mode(LogMixin):
         This is posted after the "mode_(name)_starting" event.
         '''
 
-    def _mode_started_callback(self, **kwargs) -> None:
+    def _mode_started_callback(self, _start_callback=None, **kwargs) -> None:
         """Handle result of mode_<name>_started queue event."""
         del kwargs
         self.mode_start(**self.start_event_kwargs)
 
         self.start_event_kwargs = dict()
 
-        if self.start_callback:
-            self.start_callback()
+        if _start_callback:
+            _start_callback()
 
         self.debug_log('Mode Start process complete.')
 
